@@ -4,6 +4,7 @@ open IrVerif.SymExpr
 #print axioms IrVerif.SymExpr.C16_print_parse
 #print axioms IrVerif.SymExpr.C16_print_parse_text
 #print axioms IrVerif.SymExpr.C16_fast_path
+#print axioms IrVerif.SymExpr.C16_tokenize_spec
 #print axioms IrVerif.SymExpr.C16_tokenize_render
 #print axioms IrVerif.SymExpr.C16_partial
 #print axioms IrVerif.SymExpr.C16_eval_free
